@@ -382,11 +382,88 @@ def rule_r5(F, rep):
     rep.trust("TOML 1.0 bare-key grammar; YAML 1.2 plain-scalar indicator characters (subset check only)")
 
 
+MANIFESTERS = ["do_manifest_json", "do_manifest_python", "do_manifest_yaml_doc", "do_manifest_toml_value"]
+SIB_EXCEPT = {("do_manifest_toml_value", "Null"): "TOML has no null: manifesting null is an error by specification"}
+
+
+def rule_r6(F, rep):
+    from . import evalmarks as em
+    R = rep.rule("C05.R6", "the manifesters agree with each other on what they do with each kind of value (sibling "
+                 "cross-check of the JSON, Python, YAML and TOML manifesters): strings go through an escaper, arrays and objects "
+                 "descend under ManifestArrayItem / ManifestObjectField trace items, object fields come from "
+                 "get_visible_fields_order, object assertions are checked on every successful path, and a function is the "
+                 "ManifestFunction error — a manifester that deviates emits something the others would not")
+    OBJD = "rsjsonnet_lang::program::data::ObjectData"
+    VALS = ["Null", "Bool", "Number", "String", "Array", "Object", "Function"]
+    table = {}
+    for sname in MANIFESTERS:
+        fn = F.fn("<%s>::%s" % (em.EVAL, sname))
+        rep.fn(fn)
+        body = fn.body
+        for v in VALS:
+            def extra_term(w, bb, t, env):
+                if t["k"] == "call":
+                    n = callee_name(t) or ""
+                    if n.startswith("<%s>::" % OBJD):
+                        return ("obj", n.rsplit("::", 1)[1])
+                    if "::escape_" in n:
+                        return ("esc",)
+                return None
+            m = em.Marker(F, body, 1, True, extra_term=extra_term)
+
+            def on_stmt(w, bb, idx, st, env, m=m):
+                if st["k"] == "assign" and st["rv"]["k"] == "agg" and st["rv"]["ak"] == "adt" and st["rv"]["adt"].endswith("eval::TraceItem"):
+                    return ("trace", st["rv"]["v"])
+                return m.on_stmt(w, bb, idx, st, env)
+            w = kwalk.Walker(F, body, on_term=m.on_term, on_stmt=on_stmt, call_result=em.injector(F, body, values=[v]),
+                             want_ret=True, max_states=400000)
+            outs = w.run(0, {})
+            rep.states += w.states_explored
+            okp = [o for o in outs if o[0] == "return" and not em.is_err_return(o)]
+            errp = [o for o in outs if o[0] == "return" and em.is_err_return(o)]
+            feats = set()
+            for o in okp:
+                for mk in o[1]:
+                    if mk[0] in ("obj", "esc", "trace"):
+                        feats.add(mk)
+            if okp and all(("call", "check_object_asserts") in o[1] for o in okp):
+                feats.add(("asserts-on-every-path",))
+            elif any(("call", "check_object_asserts") in o[1] for o in okp):
+                feats.add(("asserts-on-some-paths",))
+            errs = {mk[1] for o in errp for mk in o[1] if mk[0] == "err"}
+            table[(sname, v)] = (frozenset(feats), frozenset(errs), bool(okp))
+    n = 0
+    for v in VALS:
+        votes = {}
+        for sname in MANIFESTERS:
+            if (sname, v) in SIB_EXCEPT:
+                continue
+            votes.setdefault(table[(sname, v)], []).append(sname)
+        ref = max(votes.items(), key=lambda kv: len(kv[1]))[0]
+        for sname in MANIFESTERS:
+            n += 1
+            if (sname, v) in SIB_EXCEPT:
+                rep.ob(R, "%s|%s" % (sname, v), True, {"manifester": sname, "value": v, "exception": SIB_EXCEPT[(sname, v)]})
+                continue
+            got = table[(sname, v)]
+            ok = got == ref
+            rep.ob(R, "%s|%s" % (sname, v), ok, {"manifester": sname, "value": v, "does": sorted(map(str, got[0])), "errors": sorted(got[1])}
+                   if v in ("Object", "String") else None)
+            if not ok:
+                rep.violation(R, "%s|%s|deviates" % (sname, v),
+                              "%s handles a %s value differently from its siblings: it does %s (errors %s, succeeds: %s); the others "
+                              "do %s (errors %s, succeed: %s)" % (sname, v, sorted(map(str, got[0])), sorted(got[1]), got[2],
+                                                                  sorted(map(str, ref[0])), sorted(ref[1]), ref[2]),
+                              F.fn("<%s>::%s" % (em.EVAL, sname)).loc)
+    rep.floor(R, n, 28, "manifester x value-kind rows")
+
+
 def run(F, rep, tier):
     rule_r1(F, rep)
     rule_r5(F, rep)
     from . import c05_flow
     c05_flow.run(F, rep)
+    rule_r6(F, rep)
     from . import c06
     c06.rule_r3(F, rep)      # numbers reach the document only through Display of the f64 itself
     rep.assume("round-trip equality of emitted documents is value-level and not decided; number text is "
